@@ -6,6 +6,7 @@ import node_chan as nc
 import search_chan as sc
 import cont_chan as cc
 import types_chan as tc
+import macro_chan as mc
 
 
 # ----------------------------------------------------------------------------
@@ -707,5 +708,135 @@ class C16(CaseSpec):
         return cov
 
 
-REGISTRY = {"C16": C16, "C11": C11, "C12": C12, "C13": C13, "C18": C18, "C01": C01, "C02": C02, "C03": C03, "C04": C04, "C05": C05, "C06": C06, "C07": C07, "C08": C08,
+# ----------------------------------------------------------------------------
+# C14: construction macros — generated programs compiled against the working tree
+# ----------------------------------------------------------------------------
+class C14(CaseSpec):
+    def assumptions(self):
+        return ["macro EXPANSION is rustc's; the model is of the transcriber (the operation list an invocation expands to)",
+                "value expressions are pure integer expressions evaluated by the generator"]
+
+    def correspondence(self, prop, tier, rng, workdir, pr, violations):
+        t1 = time.time()
+        invs = mc.gen_invocations(rng, 600 if tier == "thorough" else 90)
+        flavours = list(mc.MACROS)
+        d = os.path.join(CACHE, "probes", "c14")
+        mc.gen_probe(d, invs, random.Random(rng.random()), flavours)
+        out, blog = mc.build_and_run(d)
+        per_flavour_err = {}
+        if out is None:
+            # find the macro family that does not compile / crashes: build each flavour alone
+            outs = []
+            for fl in flavours:
+                dd = os.path.join(CACHE, "probes", "c14_" + fl)
+                mc.gen_probe(dd, invs, random.Random(1), [fl])
+                o, bl = mc.build_and_run(dd)
+                if o is None:
+                    per_flavour_err[fl] = bl
+                else:
+                    outs.append(o)
+            out = "\n".join(outs)
+        # model
+        cases = []
+        for fl in flavours:
+            cases.append(Case("mac_" + fl, mc.MACROS[fl], [i.step() for i in invs] + mc.helper_steps()))
+        results = {"model": {}, "hangs": {}}
+        impl = {}
+        cur = None
+        for line in out.splitlines():
+            if line.startswith("case "):
+                cur = line[5:]
+                impl[cur] = []
+            elif line.startswith("end "):
+                cur = None
+            elif cur is not None:
+                sp = line.split(" ", 1)
+                if sp[0].isdigit():
+                    impl[cur].append((int(sp[0]), sp[1] if len(sp) > 1 else ""))
+        dis, bad = [], []
+        for c in cases:
+            fl = c.name[4:]
+            path = os.path.join(workdir, c.name + ".cases")
+            vlib.write_cases([c], path)
+            m = vlib.run_model(c.cls, path, path + ".mout")[0].get(c.name, [])
+            r = impl.get(c.name)
+            if r is None:
+                continue
+            for i in range(max(len(r), len(m))):
+                a = r[i] if i < len(r) else None
+                b = m[i] if i < len(m) else None
+                if a != b:
+                    dis.append((fl, i, a, b))
+            # property oracle on the implementation's own output
+            for (i, text) in r:
+                if i < len(invs):
+                    msg = self.decide(invs[i], c.cls, text)
+                    if msg:
+                        bad.append((fl, i, text, msg))
+        log("[%s] macros: %d invocations x %d flavours, %d disagreements, %d property failures, build errors %s, %.1fs" % (
+            prop, len(invs), len(flavours), len(dis), len(bad), sorted(per_flavour_err), time.time() - t1))
+        forms = {}
+        for i in invs:
+            forms[i.form] = forms.get(i.form, 0) + 1
+        cov = dict(evaluations=len(invs) * len(flavours), distinct_nontrivial=len(set(i.step() for i in invs if i.items)),
+                   rule="generated program: %d invocations (fixed corner cases per form: empty, no edge list, empty list, self-loop, repeated edges, forward/backward "
+                        "references, unlisted keys, a key listed twice; plus seeded random ones with non-literal value expressions) of each of the 4 macros, each ascribed "
+                        "its flavour's Graph<K,N,E>; helper macros *_node!/*_connect!; compiled against /repo's working tree; every dump (or the key named by the panic) "
+                        "compared with macro_build of the model. distinct = distinct invocation; non-trivial = at least one node" % len(invs),
+                   samples=[invs[4].rust(random.Random(0), "digraph"), invs[-1].step()], invocations_per_form=forms,
+                   traces_validated_against_impl=len(invs) * len(flavours) - len(dis), disagreements=len(dis))
+        for fl, bl in per_flavour_err.items():
+            errs = [l for l in bl.splitlines() if l.startswith("error")]
+            rp = write_replay(prop, {"kind": "failing-input", "flavour": fl, "oracle": "a well-formed %s! invocation ascribed gdsl::%s::Graph does not compile / run: %s" % (fl, fl, errs[:2]),
+                                     "program": os.path.join(CACHE, "probes", "c14_" + fl, "src", "main.rs"), "rustc": bl[-3000:]})
+            violations.append((rp, ""))
+        for (fl, i, text, msg) in bad[:3]:
+            rp = write_replay(prop, {"kind": "failing-input", "flavour": fl, "invocation": invs[i].rust(random.Random(0), fl), "implementation": text, "oracle": msg})
+            violations.append((rp, ""))
+        if dis and not bad and not per_flavour_err:
+            fl, i, a, b = dis[0]
+            rp = write_replay(prop, {"kind": "correspondence-broken", "flavour": fl, "invocation": invs[i].rust(random.Random(0), fl) if i < len(invs) else "helper macros",
+                                     "implementation": a, "model": b, "broken": "macro probe and macro_build differ"})
+            violations.append((rp, "no-failing-input-found"))
+        return cov
+
+    def decide(self, inv, cls, text):
+        """the denotation of an invocation, decided directly"""
+        keys = []
+        vals = {}
+        for (k, v, edges) in inv.items:
+            if k not in vals:
+                vals[k] = v if inv.form in (2, 4) else 0
+                keys.append(k)
+        edges = [(k, t, (e if inv.form in (3, 4) else 0)) for (k, v, es) in inv.items for (t, e) in (es or [])]
+        missing = None
+        for (s, t, e) in edges:
+            if s not in vals:
+                missing = s
+                break
+            if t not in vals:
+                missing = t
+                break
+        if missing is not None:
+            return None if text == "panic %d" % missing else "expected a panic naming %d, got `%s`" % (missing, text[:80])
+        if not text.startswith("ok"):
+            return "well-formed invocation did not build a graph: %s" % text[:80]
+        back = cc.parse_gsnap(text[3:], cls)
+        if back is None or sorted(back) != sorted(keys):
+            return "nodes of the result are not the listed nodes"
+        for k in keys:
+            if back[k]["val"] != vals[k]:
+                return "node %d has value %d, listed %d" % (k, back[k]["val"], vals[k])
+            if cls == "D":
+                want = [(s, t, e) for (s, t, e) in edges if s == k]
+                if back[k]["out"] != want:
+                    return "edges of node %d are %s, listed %s" % (k, back[k]["out"], want)
+            else:
+                want = sorted([(s, t, e) for (s, t, e) in edges if s == k] + [(t, s, e) for (s, t, e) in edges if t == k])
+                if sorted(back[k]["adj"]) != want:
+                    return "edges of node %d are %s, listed %s" % (k, sorted(back[k]["adj"]), want)
+        return None
+
+
+REGISTRY = {"C14": C14, "C16": C16, "C11": C11, "C12": C12, "C13": C13, "C18": C18, "C01": C01, "C02": C02, "C03": C03, "C04": C04, "C05": C05, "C06": C06, "C07": C07, "C08": C08,
             "C09": C09, "C10": C10}
